@@ -20,8 +20,9 @@ LAST = None
 TPAT = [[], ['-t', 'a'], ['-t', '!a1'], ['-t', '0'], ['-t', 'b0', '-t', 'a1'], ['-t', '!0', '-t', '!u']]
 LPAT = [[], ['--layer', 'w.A'], ['--layer', '!w.A'], ['-u'], ['-f'], ['--layer', 'UnitTests', '--layer', 'w.B'], ['-u', '-f']]
 LVL = [[], ['--at-level', '2'], ['--all'], ['--only-level', '2'], ['--at-level', '3'], ['--only-level', '1']]
-NAMES = ['u0', 'u1', 'a0', 'a1', 'b0', 'b1', 'x0']
-LEVELS = {'u0': 1, 'u1': 2, 'a0': 1, 'a1': 2, 'b0': 3, 'b1': 1, 'x0': 1}
+SHUF = [[], ['--shuffle', '--shuffle-seed', '7'], ['--shuffle', '--shuffle-seed', '12345']]
+NAMES = ['u0', 'u1', 'a0', 'a1', 'b0', 'b1', 'x0', 'b2', 'x1']
+LEVELS = {'u0': 1, 'u1': 2, 'a0': 1, 'a1': 2, 'b0': 3, 'b1': 1, 'x0': 1, 'b2': 1, 'x1': 1}
 LNAME = {'u': 'zope.testrunner.layer.UnitTests', 'a': 'w.A', 'b': 'w.B', 'x': 'w.A2'}
 MODES = FR.MODES + ['list']
 
@@ -79,15 +80,16 @@ def _listed(text):
     return out
 
 
-def selected(mode, t, l, lv, rep2, nest):
+def selected(mode, t, l, lv, rep2, nest, sh=0):
     global LAST
     mode = pick(MODES, mode)
     t, l, lv = pick(TPAT, t), pick(LPAT, l), pick(LVL, lv)
     rep2, nest = cb(rep2), cb(nest)
+    sh = pick(SHUF, sh)
     with untraced():
         tdd = {'A': 2} if mode == 'nie' else {}
-        world = FR.World({n: W.PASS for n in NAMES}, td=tdd, levels=LEVELS, order=['b0', 'u1', 'x0', 'a1', 'b1', 'a0', 'u0'], nest=nest)
-    argv = t + l + lv + (['--repeat', '2'] if rep2 else [])
+        world = FR.World({n: W.PASS for n in NAMES}, td=tdd, levels=LEVELS, order=['b0', 'u1', 'x0', 'a1', 'b1', 'a0', 'u0', 'b2', 'x1'], nest=nest, suite_level=5)
+    argv = t + l + lv + (['--repeat', '2'] if rep2 else []) + sh
     ref = FR.run(world, 'seq', argv=argv)
     if mode == 'list':
         res = FR.run(world, 'seq', argv=argv + ['--list-tests'])
@@ -95,7 +97,7 @@ def selected(mode, t, l, lv, rep2, nest):
         res = FR.run(world, mode, argv=argv)
     with untraced():
         why = oracle(mode, t, l, lv, rep2, ref, res)
-    LAST = (mode, tuple(t), tuple(l), tuple(lv), rep2, nest, why, tuple(e[2] for e in res.trace if e[1] == 'test'))
+    LAST = (mode, tuple(t), tuple(l), tuple(lv), rep2, nest, why, tuple(e[2] for e in res.trace if e[1] == 'test'), tuple(sh))
     return why is None
 
 
@@ -161,14 +163,14 @@ def selected_reach(*a):
     return LAST[6] is None and LAST[0] == 'j2' and len(LAST[7]) >= 3
 
 
-_P = [('mode', 'int'), ('t', 'int'), ('l', 'int'), ('lv', 'int'), ('rep2', 'bool'), ('nest', 'bool')]
+_P = [('mode', 'int'), ('t', 'int'), ('l', 'int'), ('lv', 'int'), ('rep2', 'bool'), ('nest', 'bool'), ('sh', 'int')]
 _C = ', '.join(n for n, _ in _P)
-_B = '0 <= mode < %d and 0 <= t < %d and 0 <= l < %d and 0 <= lv < %d' % (len(MODES), len(TPAT), len(LPAT), len(LVL))
-_Q = _B + ' and (not rep2 or (t <= 1 and l <= 1)) and ((t == 0) + (l == 0) + (lv == 0) >= 1)'
+_B = '0 <= sh < 3 and 0 <= mode < %d and 0 <= t < %d and 0 <= l < %d and 0 <= lv < %d' % (len(MODES), len(TPAT), len(LPAT), len(LVL))
+_Q = _B + ' and (sh == 0 or (not rep2 and t <= 1 and lv <= 2 and l <= 2 and sh == 1)) and (not rep2 or (t <= 1 and l <= 1)) and ((t == 0) + (l == 0) + (lv == 0) >= 1)'
 
 
 def _v(**kw):
-    v = dict(mode=0, t=0, l=0, lv=0, rep2=False, nest=True)
+    v = dict(mode=0, t=0, l=0, lv=0, rep2=False, nest=True, sh=0)
     v.update(kw)
     return v
 
@@ -183,7 +185,7 @@ SPEC = {
     'stubs': ['LoopbackPopen children, synchronous threads, get_options untraced on concrete argv', 'found_suites given (discovery from disk is C14)',
               'runner.time, runner.gc'],
     'assumptions': ['the independent selection predicate is the C08/C09 specification evaluated with Python\'s re on the concrete names'],
-    'outside': ['--shuffle (C11 decides that modes agree under a shuffled order)', 'more than 6 tests in 3 layers', 'option pools are finite'],
+    'outside': ['--shuffle with a symbolic random stream (C11); here two concrete seeds through the real random module', 'more than 6 tests in 3 layers', 'option pools are finite'],
     'harnesses': [
         {'name': 'selected', 'fn': 'selected', 'params': _P, 'call': _C,
          'bounds': {'quick': _Q, 'thorough': _B},
@@ -191,6 +193,6 @@ SPEC = {
                     'thorough': ['mode == %d and lv == %d and %s' % (m, k, n) for m in range(len(MODES)) for k in range(len(LVL)) for n in ('nest', 'not nest')]},
          'reach': 'selected_reach', 'reach_bounds': {'quick': _B + ' and t == 0 and l == 0 and lv == 0', 'thorough': _B + ' and t == 0 and l == 0 and lv == 0'},
          'timeout': {'quick': 400, 'thorough': 1700},
-         'fidelity': [_v(), _v(mode=5, t=2, lv=2), _v(mode=2, l=2, lv=1, rep2=True), _v(mode=1, t=4, l=5, lv=4, nest=False), _v(mode=4, l=3)]},
+         'fidelity': [_v(), _v(mode=5, t=2, lv=2), _v(mode=2, l=2, lv=1, rep2=True), _v(mode=1, t=4, l=5, lv=4, nest=False), _v(mode=4, l=3), _v(mode=1, sh=1), _v(mode=5, sh=2, lv=2)]},
     ],
 }
